@@ -222,10 +222,15 @@ func ConnectTCP(
 	}
 
 	if err := connect(fd, remoteAddr, timeout, opts...); err != nil {
+		_ = syscall.Close(fd)
 		return -1, nil, nil, err
 	}
 
 	localAddr, err = SocketAddress(fd)
+	if err != nil {
+		_ = syscall.Close(fd)
+		return -1, nil, nil, err
+	}
 	return
 }
 
@@ -240,10 +245,15 @@ func ConnectUDP(
 	}
 
 	if err := connect(fd, remoteAddr, timeout, opts...); err != nil {
+		_ = syscall.Close(fd)
 		return -1, nil, nil, err
 	}
 
 	localAddr, err = SocketAddress(fd)
+	if err != nil {
+		_ = syscall.Close(fd)
+		return -1, nil, nil, err
+	}
 	return
 }
 
